@@ -8,6 +8,7 @@ mod cen;
 mod clu;
 mod comm;
 mod comp;
+mod gen;
 mod graphgen;
 mod rng;
 mod sp;
@@ -31,6 +32,7 @@ fn gen(family: &str, profile: &str, seed: u64, count: usize, size: usize) -> Vec
                 store::gen_case(&mut r, p, size).request()
             }
             "sp" => sp::gen_case(&mut r, profile, size).request(),
+            "complete" | "karate" | "gnp" | "gnpstat" => gen::gen_case(&mut r, family, profile, size),
             "mod" => comm::gen_mod(&mut r, profile, size).request(),
             "louv" => comm::gen_louv(&mut r, profile, size).request(),
             "clu" => clu::gen_case(&mut r, profile, size).request(),
@@ -62,6 +64,10 @@ fn run_line(line: &str) -> String {
     match cmd.as_str() {
         "store" => store::observe(&store::Case::parse(&mut t)),
         "sp" => { let c = sp::Case::parse(&mut t); guarded(move || sp::observe_inner(&c)) }
+        "complete" => guarded(move || gen::observe_complete(&mut t)),
+        "karate" => guarded(gen::observe_karate),
+        "gnp" => guarded(move || gen::observe_gnp(&mut t)),
+        "gnpstat" => guarded(move || gen::observe_gnpstat(&mut t)),
         "mod" => { let c = comm::ModCase::parse(&mut t); guarded(move || comm::observe_mod(&c)) }
         "louv" => {
             let c = comm::LouvCase::parse(&mut t);
